@@ -15,7 +15,7 @@ import dtls_common as dc
 import vlib
 
 PID = "C02"
-ADV = ["rw_cert", "rw_ske_key", "rw_ske_sig", "rw_ske_full", "rw_crand", "rw_srand", "rw_prof", "rw_cke_key",
+ADV = ["rw_cert", "rw_cert_pre", "rw_cert_app", "rw_ske_key", "rw_ske_sig", "rw_ske_full", "rw_crand", "rw_srand", "rw_prof", "rw_cke_key",
        "omit", "inj_app0", "inj_fin0"]
 FP = ["none", "match", "mismatch"]
 TICK_MS = 40
@@ -23,10 +23,10 @@ DEADLINE_MS = 700     # no liveness verdict here: the deadline only bounds how l
 
 # (label, fpcs, fpss, idcs, idss)
 ROLE_CFGS = [
-    ("client", FP, ["none"], ["certC"], ["certS", "certM", "stolen"]),
-    ("server", ["match"], FP, ["certC", "certM", "stolen"], ["certS"]),
+    ("client", FP, ["none"], ["certC"], ["certS", "certM", "stolen", "chain"]),
+    ("server", ["match"], FP, ["certC", "certM", "stolen", "chain"], ["certS"]),
 ]
-FULL_CFGS = [("all", FP, FP, ["certC", "certM", "stolen"], ["certS", "certM", "stolen"])]
+FULL_CFGS = [("all", FP, FP, ["certC", "certM", "stolen", "chain"], ["certS", "certM", "stolen", "chain"])]
 
 
 def _cfg(name):
@@ -88,7 +88,7 @@ def evaluate(outcome, allowed_by_key):
                          dict(base, obs=obs)))
         if fin[e] == "Connected":
             # model-independent reading of the statement
-            if fp_mode[e] == "mismatch" or (fp_mode[e] == "match" and peer_id[e] in ("certM", "stolen")):
+            if fp_mode[e] == "mismatch" or (fp_mode[e] == "match" and peer_id[e] in ("certM", "stolen", "chain")):
                 rule = "ServerAuthenticatesClient" if e == "S" else "ClientAuthenticatesServer"
                 divs.append(({"sub": "dtls", "rule": rule, "role": role_name[e], "fp": fp_mode[e], "by": "direct"},
                              dict(base, obs=obs, note="Connected although the peer cannot hold the expected certificate")))
@@ -129,7 +129,7 @@ def run(tier):
         groups = [g + ([], 0, 1) for g in ROLE_CFGS]
 
     # 1. the intended design (client authentication included): Auth, AuthKey, FailClosed hold for both roles
-    for label, fpcs, fpss, idcs, idss in FULL_CFGS:
+    for label, fpcs, fpss, idcs, idss in (FULL_CFGS if thorough else ROLE_CFGS):
         _run_tlc(ck, f"design_{label}", spec="Spec", deviations=[], adv_kinds=ADV, adv_budget=adv_budget,
                  net_kinds=["hold1"], net_budget=1, max_ord=1, fpcs=fpcs, fpss=fpss, idcs=idcs, idss=idss, deadline=True,
                  invariants=["Auth", "AuthKey", "FailClosed", "KeyAgree"])
@@ -268,13 +268,14 @@ def replay(path):
 def selftest():
     """Negative controls on the model: each weakened check violates Auth."""
     ok = True
-    for dev in (["ServerSkipsClientAuth"],):
+    for dev, inv in ((["ServerSkipsClientAuth"], "Auth"), (["ServerSkipsClientAuth", "FingerprintAnyInChain"], "AuthClient")):
         path = _cfg("selftest")
         dc.write_mc_cfg(path, spec="Spec", deviations=dev, adv_kinds=ADV, adv_budget=1, max_ord=1, fpcs=FP, fpss=FP,
-                        idcs=["certC", "certM", "stolen"], idss=["certS", "certM", "stolen"], deadline=True, invariants=["Auth"])
+                        idcs=["certC", "certM", "stolen", "chain"], idss=["certS", "certM", "stolen", "chain"], deadline=True,
+                        invariants=[inv])
         res = vlib.tlc("MC_DtlsHandshake", os.path.basename(path), workers=6, timeout=900, tag="c02_selftest")
         os.remove(path)
-        hit = any("Auth" in e for e in res["errors"])
-        print(f"selftest: deviation {dev} violates Auth on the model: {hit}")
+        hit = any(inv in e for e in res["errors"])
+        print(f"selftest: deviation {dev} violates {inv} on the model: {hit}")
         ok = ok and hit
     raise SystemExit(0 if ok else 2)
